@@ -204,6 +204,12 @@ static void run_end(void)
 		fclose(fp);
 		printf("ok fp ret=%d sink=", (int) !!r); h_puthex(sink, (int) sink_len);
 		printf(" trace=%s\n", tlen ? trace : "-");
+	} else if (0 == strcmp(tgt, "filebad")) {
+		/* the file cannot be created: vbi_export_file must fail without calling the module */
+		char path[192]; vbi_bool r; struct stat sb;
+		snprintf(path, sizeof path, "%s.d/no/such/dir/out", tmpfile_path());
+		r = vbi_export_file(&ex, path, &dummy);
+		printf("ok filebad ret=%d sink=%s trace=%s\n", (int) !!r, 0 == stat(path, &sb) ? "EXISTS" : "unlinked", tlen ? trace : "-");
 	} else {
 		const char *path = tmpfile_path(); struct rlimit old, lim; vbi_bool r; uint8_t *d; size_t n = 0;
 		unlink(path);
@@ -428,7 +434,7 @@ int main(void)
 			int wc, ng, eb, ao; ops_clear(); wc = probe_wideclip(); ng = probe_nullguard(); eb = probe_e2big(); ao = probe_atone(); ops_clear();
 			printf("ok wideclip=%d nullguard=%d e2big=%d atone=%d\n", wc, ng, eb, ao);
 		} else if (H_IS(0, "begin")) {
-			if (h_ntok != 5 || !(H_IS(1, "mem") || H_IS(1, "alloc") || H_IS(1, "fp") || H_IS(1, "file"))
+			if (h_ntok != 5 || !(H_IS(1, "mem") || H_IS(1, "alloc") || H_IS(1, "fp") || H_IS(1, "file") || H_IS(1, "filebad"))
 			    || !(H_IS(2, "null") || (NUM(2, v[0]) && v[0] >= 0 && v[0] <= (1 << 20)))
 			    || !NUM(3, v[1]) || v[1] < 0 || !NUM(4, v[2]) || v[2] < 0) printf("rej parse\n");
 			else if (begun) printf("rej state\n");
@@ -510,6 +516,22 @@ int main(void)
 					else if (H_IS(0, "printnt")) printf("ok bounded\n");
 					else { printf("ok %d ", n); h_puthex((uint8_t *) buf, n); printf("\n"); }
 					free(buf);
+				}
+			}
+		} else if (H_IS(0, "textexp")) {
+			/* textexp <charset> <gfx_chr (decimal, two or more digits)> <control 0..2>: the text module, modelled */
+			if (h_ntok != 4 || !NUM(2, v[0]) || !NUM(3, v[1]) || v[0] < 10 || v[0] > 99999 || h_tok[2][0] == '0' || v[1] < 0 || v[1] > 2
+			    || !(!strcmp(h_tok[1], "ISO-8859-1") || !strcmp(h_tok[1], "UTF-8") || !strcmp(h_tok[1], "ASCII") || !strcmp(h_tok[1], "UCS-2LE"))) printf("rej parse\n");
+			else if (!pg) printf("rej state\n");
+			else {
+				char spec[128], *err = NULL; vbi_export *e; void *d = NULL; size_t n = 0;
+				snprintf(spec, sizeof spec, "text,charset=%s,gfx_chr=%s,control=%d", h_tok[1], h_tok[2], (int) v[1]);
+				e = vbi_export_new(spec, &err);
+				if (!e) { free(err); printf("rej module\n"); }
+				else {
+					if (vbi_export_alloc(e, &d, &n, pg)) { printf("ok %zu ", n); h_puthex((uint8_t *) d, (int) n); printf("\n"); free(d); }
+					else printf("ok fail\n");
+					vbi_export_delete(e);
 				}
 			}
 		} else if (H_IS(0, "export")) {
